@@ -10,6 +10,6 @@ def run(ctx):
     ctx.rule = ("pairs built from one case: plane-strain quad body vs the extruded one-layer hexahedron slab (TLC ties the two layers), "
                 "axisymmetric nodal forces vs the 7-point stencil of Pi = sum 2 pi R W dA, axisymmetric forces vs ring sums of the revolved "
                 "model with 8/16/32 segments, converged nearly-incompressible body vs converged three-field formulation for several bulk "
-                "moduli / load levels, uniform vs general region; lattice-perturbed meshes, lattice states")
+                "moduli / load levels on 3-d, plane-strain and axisymmetric fields, uniform vs general region; lattice-perturbed meshes, lattice states")
     ctx.assumptions = ["convergence to the revolved model is decided as a finite refinement law (>= 3x per doubling, bound at n = 32)",
                        "plane strain vs slab for linear cells (the serendipity slab would need thickness mid-nodes)"]
